@@ -56,7 +56,9 @@ def one(seed, props, tier, jobs, keep):
             t0 = time.time()
             rc, out = sh([os.path.join(VERIF, "verify"), "check", pid, "--tier", tier], cwd=VERIF, env=venv)
             viol = [l for l in out.splitlines() if l.startswith("VIOLATION")]
-            why = [l for l in out.splitlines() if l.startswith("harness ") or l.startswith("INCONCLUSIVE") or l.startswith("  C")]
+            why = [l for l in out.splitlines() if l.startswith("harness ") or l.startswith("INCONCLUSIVE") or l.startswith("  C") or l.startswith("second engine")]
+            se = [l for l in out.splitlines() if l.startswith("second engine")]
+            res.setdefault("second_engine", {})[pid] = (se[0].split(":")[1].split(",")[0].strip() if se else None)
             res["checks"][pid] = {"exit": rc, "violations": len(viol), "wall_s": round(time.time() - t0, 1), "detail": [w[:400] for w in why[:6]]}
         res["detected_by"] = sorted(p for p, r in res["checks"].items() if r["exit"] == 1)
         res["inconclusive"] = sorted(p for p, r in res["checks"].items() if r["exit"] not in (0, 1))
